@@ -17,6 +17,8 @@ Expected(f, rec, e) ==
   ELSE IF z /\ f.dflt # "" THEN f.dflt
   ELSE IF z /\ f.auto \in {"create", "update"} THEN e.now
   ELSE IF z /\ f.auto = "create_nano" THEN e.nownano
+  ELSE IF z /\ f.auto \in {"create_milli", "update_milli"} THEN e.nowmilli
+  ELSE IF z /\ f.auto \in {"create_sec", "update_sec"} THEN e.nowsec
   ELSE g
 
 AutoKey(f, e) == f.key /\ e.keymode = "auto" /\ ~e.preset
